@@ -66,7 +66,7 @@ def c15(tier):
     A = ['days_to_date']
     B = ['days_to_date/bound', 'date_to_days', 'spec_rd/uf'] + KERNELS
     signs = [{'d': (-2**31, -2)}, {'d': (-1, 1)}, {'d': (2, 2**31 - 1)}]
-    dt_date_setters = [Ob(f, abstractions=(['days_to_date/bound'] + KERNELS) if 'day_of_year' in f else B, slices=signs,
+    dt_date_setters = [Ob(f, abstractions=(['days_to_date/bound'] + KERNELS) if 'day_of_year' in f else B, slices=signs, timeout=(900 if 'day_of_year' in f and tier != 'thorough' else None),
                           note='DateTime date setters under any offset, range ends included (shared with C09): Ok exactly when the edited local date exists and is representable')
                        for f in ('c09_dt_set_year_holds', 'c09_dt_set_month_holds', 'c09_dt_set_day_holds', 'c09_dt_set_day_of_year_holds')]
     return [Ob('c01_days_to_date_holds', slices=[{'d': (-2**31, -1)}, {'d': (0, 2**31 - 1)}], note='contract of days_to_date used below'),
@@ -102,7 +102,7 @@ def c09(tier):
     signs = [{'d': (-2**31, -2)}, {'d': (-1, 1)}, {'d': (2, 2**31 - 1)}]
     for f in fns_of('c09_', 'c09.rs'):
         sl = signs if '_dt_' in f else None
-        if 'day_of_year' in f: obs.append(Ob(f, abstractions=['days_to_date/bound'] + KERNELS, slices=sl))
+        if 'day_of_year' in f: obs.append(Ob(f, abstractions=['days_to_date/bound'] + KERNELS, slices=sl, timeout=(900 if tier != 'thorough' else None)))
         elif '_dt_set_year' in f or '_dt_set_month' in f or '_dt_set_day' in f or 'clear_until_year' in f and '_dt_' in f or 'clear_until_month' in f or 'clear_until_day' in f or '_date_' in f:
             obs.append(Ob(f, abstractions=B, slices=sl))
         else: obs.append(Ob(f, abstractions=KERNELS if '_dt_' in f else (), slices=sl))
@@ -180,6 +180,10 @@ def c19(tier):
     pairs = [(0, 1), (1, 2), (2, 0)] if tier != 'thorough' else [(a, b) for a in range(3) for b in range(3)]
     obs.append(Ob('c19_alt_lookup_total_holds', abstractions=TZ_A, unwind=14, slices=[{'k1': (a, a), 'k2': (b, b)} for a, b in pairs], timeout=900 if tier != 'thorough' else 1800,
                   note='lookup half: the alternating-rule branch of to_local_time_type on any pair of accepted rule days, offsets and times'))
+    # std-model self-tests for the models the reader needs (decided and compared with the native build on concrete points)
+    obs += [Ob('probe_vec_holds', note='std model self-test: Vec of symbolic length'), Ob('probe_step_by_holds', note='std model self-test: Range::step_by().collect()')]
+    for L in (0, 1, 3, 5):
+        obs.append(Ob('probe_parse_trim_holds', strlen=L, unwind=L + 4, dom={'b#bytes': {i: (0, 127) for i in range(L)}}, opts={'resolve_ite': True}, note='std model self-test: from_utf8/trim_matches/parse/starts_with, all ASCII strings of %d bytes' % L))
     shapes = S.c19_reader_shapes(tier, seed)
     for desc, bd, profiles in shapes:
         L, dom = S.dom_of(bd)
@@ -222,6 +226,8 @@ def c18(tier):
                   note='rule day -> local instant vs the closed-form calendar reference (Mm.w.d sliced by weekday)'))
     obs.append(Ob('c18_alt_branch_holds', abstractions=['rule_to_local_timestamp/uf'], unwind=14, validate=False,
                   note='daylight time exactly between the two rule instants, either order (hemisphere), for any values of the instants'))
+    obs.append(Ob('c18_alt_after_table_holds', abstractions=['rule_to_local_timestamp/uf'], unwind=14, validate=False,
+                  note='table + alternating rule: the table answers between its transitions, the rule from the last transition on'))
     pairs = [(0, 1)] if not thorough else [(0, 1), (1, 0), (0, 0), (1, 1), (1, 2)]
     obs.append(Ob('c18_alt_offset_holds', abstractions=R, unwind=14, slices=[{'k1': (a, a), 'k2': (b, b)} for a, b in pairs], timeout=900 if not thorough else 2400, validate=False,
                   note='end to end on some rule-kind pairs: standard/daylight switching at the reference instants, IANA-shaped rules'))
